@@ -71,10 +71,10 @@ def check_c08(ctx):
     known_here = [k for k in known if k["property"] == "C08"]
     base = 8000 if ctx.tier == "quick" else 400000
     results = []
-    flavours = [("tsanhook", 1.0, None, ()), ("tsanhook_o0", 0.3, None, ()), ("tsanhook_clang", 0.5, None, ())]
+    flavours = [("tsanhook", 1.0, None, ()), ("tsanhook_o0", 0.3, None, ()), ("tsanhook_clang", 0.5, None, ()), ("tsanhook_w32_u0_nosimd", 0.3, None, ())]
     if ctx.tier == "thorough":
         # the compile-time paths the shipped build does not contain (32-bit words, byte-wise access, SIMD stubbed out) through the C12 hook
-        flavours += [(f, 0.3, None, ()) for f in ("tsanhook_w32", "tsanhook_w32_u0_nosimd", "tsanhook_neutral")]
+        flavours += [(f, 0.3, None, ()) for f in ("tsanhook_w32", "tsanhook_neutral")]
     for i, (fl, frac, bl, defs) in enumerate(flavours):
         d = props.build_flavour(ctx, fl, base=bl, defs=defs)
         r = props.run_objsim(ctx, fl, "C08", int(base * frac), i * base, [k["sig"] for k in known_here], build=False)
@@ -130,6 +130,7 @@ def replay(ctx, engine, fl, path):
 
 
 def prebuild(ctx):
+    props.build_flavour(ctx, "tsanhook_w32_u0_nosimd")
     for fl in ("tsanhook", "tsanhook_o0"):
         props.build_flavour(ctx, fl, targets=("thrsim", "objsim"))
         print("built", fl)
@@ -145,9 +146,12 @@ def prebuild(ctx):
 # ----------------------------------------------------------------------------- C12 cfgsim
 SIMD = {"both": {"LITTLE_ENDIAN": 1, "VEC128_MATH": 1, "VEC256_MATH": 1}, "v128": {"LITTLE_ENDIAN": 1, "VEC128_MATH": 1, "VEC256_MATH": 0},
         "off": {"LITTLE_ENDIAN": 1, "VEC128_MATH": 0, "VEC256_MATH": 0}, "offbe": {"LITTLE_ENDIAN": 0, "VEC128_MATH": 0, "VEC256_MATH": 0}}
+# configurations selected the way options.mak documents it (make variables), not through the hook: the SIMD flag sets emptied
+MAKEVAR_CFGS = {"mk256off": ["VEC256_CFLAGS="], "mksimdoff": ["VEC128_CFLAGS=", "VEC256_CFLAGS="]}
 QUICK_CFGS = [("gcc", "-O3", 1, 1, "both"), ("clang", "-O3", 0, 0, "off"), ("gcc", "-O0", 0, 1, "v128"), ("clang", "-O0", 1, 0, "both"),
               ("gcc", "-O1", 1, 0, "offbe"), ("clang", "-O1", 0, 1, "offbe"), ("gcc", "-O2", 0, 0, "both"), ("clang", "-O2", 1, 1, "v128"),
-              ("gcc", "-O2", 1, 1, "off"), ("clang", "-O3", 1, 0, "v128"), ("gcc", "-O3", 0, 1, "offbe"), ("clang", "-O0", 0, 0, "off")]
+              ("gcc", "-O2", 1, 1, "off"), ("clang", "-O3", 1, 0, "v128"), ("gcc", "-O3", 0, 1, "offbe"), ("clang", "-O0", 0, 0, "off"),
+              ("gcc", "-O3", None, None, "mk256off"), ("clang", "-O2", None, None, "mksimdoff")]
 
 
 def all_cfgs():
@@ -158,20 +162,28 @@ def all_cfgs():
                 for u in (0, 1):
                     for simd in ("both", "v128", "off", "offbe"):
                         out.append((cc, opt, w, u, simd))
+            for mk in MAKEVAR_CFGS:
+                out.append((cc, opt, None, None, mk))
     return out
 
 
 def cfg_name(c):
+    if c[4] in MAKEVAR_CFGS:
+        return "cfg-%s%s-%s" % (c[0], c[1], c[4])
     return "cfg-%s%s-w%d-u%d-%s" % (c[0], c[1], 64 if c[2] else 32, c[3], c[4])
 
 
 def build_cfg(ctx, c):
     name = cfg_name(c)
     d = os.path.join(ctx.B, name)
-    defs = ["SKINNY_VERIF", "SKINNY_VERIF_64BIT=%d" % c[2], "SKINNY_VERIF_UNALIGNED=%d" % c[3]] + ["SKINNY_VERIF_%s=%d" % kv for kv in SIMD[c[4]].items()]
     cmd = [sys.executable, os.path.join(ctx.V, "mk", "buildlib.py"), "cfg", os.path.join(d, "lib"), "--repo", ctx.repo, "--cc", c[0], "--opt=" + c[1]]
-    for x in defs:
-        cmd += ["--def", x]
+    if c[4] in MAKEVAR_CFGS:
+        for mv in MAKEVAR_CFGS[c[4]]:
+            cmd += ["--makevar", mv]
+    else:
+        defs = ["SKINNY_VERIF", "SKINNY_VERIF_64BIT=%d" % c[2], "SKINNY_VERIF_UNALIGNED=%d" % c[3]] + ["SKINNY_VERIF_%s=%d" % kv for kv in SIMD[c[4]].items()]
+        for x in defs:
+            cmd += ["--def", x]
     with props.BuildLock(ctx.B):
         p = subprocess.run(cmd, capture_output=True, text=True)
         if p.returncode == 3:      # a library source does not compile in this configuration
@@ -246,7 +258,7 @@ def check_c12(ctx):
             hit = [k for k in known_here if k["sig"] == v["sig"]]
             (findings if hit else violations).append((v, hit[0] if hit else None))
     extra = {"builds": builds, "configurations": len(builds), "exhaustive": ctx.tier != "quick",
-             "matrix": "compiler {gcc,clang} x -O{0,1,2,3} x SKINNY_64BIT {0,1} x SKINNY_UNALIGNED {0,1} x {SIMD 128+256, SIMD 128, SIMD off, SIMD off + byte-order-neutral path}: 128 builds; quick = 12 builds covering every pair of switch values",
+             "matrix": "compiler {gcc,clang} x -O{0,1,2,3} x ( SKINNY_64BIT {0,1} x SKINNY_UNALIGNED {0,1} x {SIMD 128+256, SIMD 128, SIMD off, SIMD off + byte-order-neutral path} through the SKINNY_VERIF hook  +  {VEC256_CFLAGS emptied, VEC128_CFLAGS and VEC256_CFLAGS emptied} through make variables as options.mak documents ): 144 builds; quick = 14 builds covering every pair of hook switch values plus both make-variable configurations",
              "components": {"real": "all of /repo/src, once per configuration, through the SKINNY_VERIF hook", "simulated": "allocator, CPUID (restricted by what the build contains), garbage, placement"}}
     rule = ("one seed = one history (mixture of the C03-C10/C14/C15 workloads), replayed on every build configuration; the digest of all API-visible results (return values and output bytes, "
             "no structure images, no back-end identity) must equal the reference configuration's; evaluations = histories x configurations")
@@ -262,7 +274,7 @@ def replay_c12(ctx, path):
         if t and t[0] in ("seed", "run", "cfg_a", "cfg_b"):
             cfg[t[0]] = t[1]
     def parse(s):
-        a = s.split("|"); return (a[0], a[1], int(a[2]), int(a[3]), a[4])
+        a = s.split("|"); return (a[0], a[1], None if a[2] == "None" else int(a[2]), None if a[3] == "None" else int(a[3]), a[4])
     ctx.seed = int(cfg["seed"])
     ca, cb = parse(cfg["cfg_a"]), parse(cfg["cfg_b"])
     da, _ = build_cfg(ctx, ca); db, _ = build_cfg(ctx, cb)
